@@ -648,6 +648,19 @@ fn pinched_star_3d(with_second_star: bool) -> Cx<3> {
     Cx { verts, cells }
 }
 
+/// 2-D annulus (square ring of eight triangles). Its cone is a 3-D complex in which every invariant holds except that
+/// the link of the apex - a boundary vertex - is a disk with a hole.
+fn annulus_2d() -> Cx<2> {
+    let verts: Vec<[f64; 2]> = vec![[0.0, 0.0], [12.0, 0.0], [12.0, 12.0], [0.0, 12.0], [4.0, 4.0], [8.0, 4.0], [8.0, 8.0], [4.0, 8.0]];
+    let mut cells = Vec::new();
+    for i in 0..4 {
+        let j = (i + 1) % 4;
+        cells.push(vec![i, j, 4 + i]);
+        cells.push(vec![j, 4 + j, 4 + i]);
+    }
+    Cx { verts, cells }
+}
+
 /// hand-built shapes and all their cones up to D = 5, plus every topological single fault of each
 fn run_extra_shapes(rep: &Report, cn: &Cn, bounds: &mut Vec<Value>) {
     let mut n = 0u64;
@@ -665,6 +678,18 @@ fn run_extra_shapes(rep: &Report, cn: &Cn, bounds: &mut Vec<Value>) {
             judge_cx(rep, cn, &format!("cone^3({name}:{fclass})"), &c3, &prov);
             n += 4;
         }
+    }
+    for (fname, b) in cx_faults(&annulus_2d()).into_iter().step_by(3) {
+        let fclass = fname.split('(').next().unwrap_or("?").to_string();
+        let prov = json!({"shape": "annulus", "fault": fname});
+        judge_cx(rep, cn, &format!("annulus(D2:{fclass})"), &b, &prov);
+        let c1: Cx<3> = cone::<2, 3>(&b);
+        judge_cx(rep, cn, &format!("cone^1(annulus:{fclass})"), &c1, &prov);
+        let c2: Cx<4> = cone::<3, 4>(&c1);
+        judge_cx(rep, cn, &format!("cone^2(annulus:{fclass})"), &c2, &prov);
+        let c3: Cx<5> = cone::<4, 5>(&c2);
+        judge_cx(rep, cn, &format!("cone^3(annulus:{fclass})"), &c3, &prov);
+        n += 4;
     }
     for second in [true, false] {
         let name = if second { "pinched_star" } else { "star_with_chain" };
@@ -760,6 +785,10 @@ fn main() {
     // shapes: cones (to D = 3, 4, 5) over every D=2 subject + topological fault, cones (to D = 4, 5) over D=3 ones
     let g2s: Vec<[f64; 2]> = alpha::grid::<2>(3).into_iter().map(|p| [p[0] * 4.0, p[1] * 4.0]).collect();
     run_shapes::<2, 3, 4, 5>(&rep, &cn, "cones over 4*G2(3) subsets", &g2s, 4..=5, if thorough { 1 } else { 5 }, &mut bounds);
+    // larger bases: a 2-D triangulation needs 6 points before it has a triangle with three interior edges; removing it
+    // leaves an annulus, and the cone over an annulus is the smallest complex whose only defect is a boundary vertex
+    // with a two-holed link
+    run_shapes::<2, 3, 4, 5>(&rep, &cn, "cones over 4*G2(3) subsets (6-7 points)", &g2s, 6..=6 + x, if thorough { 1 } else { 4 }, &mut bounds);
     run_shapes::<3, 4, 5, 0>(&rep, &cn, "cones over 6*cube3+centre subsets", &c3, 5..=5 + x, if thorough { 1 } else { 7 }, &mut bounds);
     run_extra_shapes(&rep, &cn, &mut bounds);
     let inj = cn.injected.load(Ordering::Relaxed);
